@@ -15,6 +15,10 @@ type Document struct {
 	file    *fs.File
 	scanner *scanner
 
+	// scanErr the error the scanner has stopped with, if it has: the scanner must
+	// not be stepped any further then.
+	scanErr error
+
 	lenOnce   sync.ErrOnceWithValue[uint]
 	checkOnce sync.ErrOnce
 
@@ -52,7 +56,14 @@ func AllowTrailingNonSpaceCharacters() Option {
 }
 
 func (d *Document) NextLexeme() (lexeme.LexEvent, error) {
-	return d.nextLexeme()
+	if d.scanErr != nil {
+		return lexeme.LexEvent{}, d.scanErr
+	}
+	lex, err := d.nextLexeme()
+	if err != nil && !stdErrors.Is(err, io.EOF) {
+		d.scanErr = err
+	}
+	return lex, err
 }
 
 func (d *Document) Len() (uint, error) {
@@ -140,6 +151,7 @@ func (d *Document) nextLexeme() (lex lexeme.LexEvent, err error) {
 
 // rewind rewinds document to the beginning.
 func (d *Document) rewind() {
+	d.scanErr = nil
 	d.scanner = newScanner(d.file)
 	d.scanner.allowTrailingNonSpaceCharacters = d.allowTrailingNonSpaceCharacters
 }
